@@ -128,8 +128,16 @@ BinOp(op, a, b) ==
                          ELSE LET q == (IF a.n < 0 THEN -a.n ELSE a.n) \div (IF b.n < 0 THEN -b.n ELSE b.n)
                               IN Val(IntV(IF (a.n < 0) # (b.n < 0) THEN -q ELSE q)))
                    ELSE IF a.k = "null" \/ b.k = "null" THEN Val(Null) ELSE RErr
+    [] op = "%" -> IF a.k = "int" /\ b.k = "int"
+                   THEN (IF b.n = 0 THEN RErr
+                         ELSE IF a.n >= 0 /\ b.n > 0 THEN Val(IntV(a.n % b.n))
+                         ELSE O("fuel", Null))            \* signs: ExprOps / C02's subject, not modelled here
+                   ELSE IF a.k = "null" \/ b.k = "null" THEN Val(Null) ELSE RErr
     [] op = "==" -> Val(Bool(Equal(a, b)))
     [] op = "!=" -> Val(Bool(~Equal(a, b)))
+    \* order between values of different kinds is not part of what this model defines (C07 speaks of the order
+    \* within a kind): such a comparison ends the model run like exhausted fuel, the program is not compared
+    [] op \in {"<", ">", "<=", ">="} /\ a.k # b.k -> O("fuel", Null)
     [] op = "<"  -> Val(Bool(Less(a, b)))
     [] op = ">"  -> Val(Bool(Less(b, a)))
     [] op = "<=" -> Val(Bool(Less(a, b) \/ Equal(a, b)))
@@ -149,7 +157,7 @@ Remove(st, e, x) == [st EXCEPT !.envs[e].vars[x] = Undef]
 H(st, ev) == [st EXCEPT !.hist = Append(@, ev)]      \* ghost event
 
 St0 == [envs |-> << [parent |-> 0, vars |-> [x \in Names |-> Undef]] >>,
-        fns |-> << >>, log |-> << >>, hist |-> << >>, fuel |-> 60, nb |-> 0]
+        fns |-> << >>, log |-> << >>, hist |-> << >>, fuel |-> 150, nb |-> 0]
 
 \* getCollectionValue / the per-kind branches of NodeFor: what a loop visits
 Items(c, what) ==
